@@ -91,11 +91,27 @@ def known_order_site(prev, nxt, x):
     return nxt in (';', '}')
 
 
+STATS = {}
+
+
 def known_idem_site(prev, nxt, x):
-    """C09-not-idempotent-with-comments: before the closing `}` of a block; and before `=`, `->`, `,` where the parser
-    re-attaches the comment to the expression that follows, so that it is printed behind the token and is attached to
-    another node (or sits at a known_lost_site) when the output is parsed again"""
-    return nxt in ('}', '=', '->', ',')
+    """C09-not-idempotent-with-comments: the parser re-attaches the comment to the node that follows, so that it is printed behind
+    the token and is attached to another node (or sits at a known_lost_site) when the output is parsed again.  The positions
+    (measured on 60 000 injections of the thorough tier; every other position was idempotent each time and is OUTSIDE the class):
+      - before the closing `}` of a block whose last token ends an expression (the block's final expression);
+      - before `,` in call arguments / tuples (an expression list in parentheses), not in match arms, patterns, declarations;
+      - before the `->` of a match arm (inside braces), not in lambdas or function types;
+      - before the `=` of a member definition (after its return type), not in `let` statements."""
+    encl = x.get('encl_open')
+    if nxt == '}':
+        return prev in (EXPR_END - {'upper-id'})
+    if nxt == ',':
+        return encl == '(' and bool(x.get('encl_expr_list'))
+    if nxt == '->':
+        return encl == '{'
+    if nxt == '=':
+        return encl == '{' and prev in ('>', 'bool', 'int', 'unit', 'upper-id')
+    return False
 
 
 # ----------------------------------------------------------------------------------------------------------------------
@@ -333,12 +349,15 @@ def monitor_inject(ck, rng, mods, budget, tag):
                 else:
                     ck.property_failure('comment before `%s` (after `%s`) changes its place among the comments' % (nxt, prev), inp)
             elif x.get('reparse_errors', 0) == 0 and x.get('same_tree', True) and not x.get('idempotent', True):
+                STATS.setdefault((prev, nxt, x.get('encl_open'), sig(x.get('encl_prev')), bool(x.get('encl_expr_list'))), [0, 0])[1] += 1
                 if known_idem_site(prev, nxt, x):
                     ck.count(tag + ': not idempotent at a known position')
                     report(ck, ID_IDEM, 'with a comment before `%s` (after `%s`) format(format(x)) != format(x)' % (nxt, prev), inp)
                 else:
                     ck.property_failure('with a comment before `%s` (after `%s`) format(format(x)) != format(x)' % (nxt, prev), inp)
             else:
+                if nxt in ('}', '=', '->', ','):
+                    STATS.setdefault((prev, nxt, x.get('encl_open'), sig(x.get('encl_prev')), bool(x.get('encl_expr_list'))), [0, 0])[0] += 1
                 ck.count(tag + ': comment kept, order kept, idempotent')
 
 
